@@ -2161,56 +2161,152 @@ obligations even when no sampled input or schedule shows a difference; the check
 a failing input. -/
 theorem c03_shape_tcp_TCPConn_Receive :
     Shapes.network_tcp_TCPConn_Receive =
-   ["c.receiveRaw", "Unmarshal", "Size"] := rfl
+   ["c.receiveRaw", "assign:buff,err:=c.receiveRaw()", "if:(err!=nil)",
+     "return:nil,xerrors.Errorf(\"\",err)", "Unmarshal",
+     "assign:id,body,err:=Unmarshal(buff,c.suite)",
+     "return:&Envelope{MsgType:id,Msg:body,Size:Size(len(buff))},err"] := rfl
+
+theorem c03_shape_tcp_TCPConn_receiveRaw :
+    Shapes.network_tcp_TCPConn_receiveRaw =
+   ["if:(c.receiveRawTest!=nil)", "return:c.receiveRawTest()", "return:c.receiveRawProd()"] := rfl
 
 theorem c03_shape_tcp_TCPConn_receiveRawProd :
     Shapes.network_tcp_TCPConn_receiveRawProd =
    ["receiveMutex.Lock", "defer:receiveMutex.Unlock", "timeoutLock.RLock", "time.Now",
-     "Now().Add", "conn.SetReadDeadline", "timeoutLock.RUnlock", "binary.Read", "if:(err!=nil)",
+     "Now().Add", "conn.SetReadDeadline", "timeoutLock.RUnlock", "binary.Read",
+     "assign:err:=binary.Read(c.conn,globalOrder,&total)", "if:(err!=nil)",
      "return:nil,xerrors.Errorf(\"\",handleError(err))", "if:(total>MaxPacketSize)",
      "return:nil,xerrors.Errorf(\"\",c.conn.RemoteAddr().String(),total,MaxPacketSize,ErrUnknown)",
-     "timeoutLock.RLock", "time.Now", "Now().Add", "conn.SetReadDeadline", "timeoutLock.RUnlock",
-     "conn.Read", "if:(err!=nil)", "c.updateRx",
-     "return:nil,xerrors.Errorf(\"\",handleError(err))", "buffer.Write", "if:(err!=nil)", "Size",
-     "c.updateRx", "return:buffer.Bytes(),nil"] := rfl
+     "assign:b:=make(conv,total)", "for:(read<total){", "timeoutLock.RLock", "time.Now",
+     "Now().Add", "conn.SetReadDeadline", "timeoutLock.RUnlock", "conn.Read",
+     "assign:n,err:=c.conn.Read(b)", "if:(err!=nil)", "c.updateRx",
+     "return:nil,xerrors.Errorf(\"\",handleError(err))", "buffer.Write",
+     "assign:_,err:=buffer.Write(b[:n])", "if:(err!=nil)", "Size", "assign:read+=Size(n)",
+     "assign:b=b[n:]", "}", "c.updateRx", "return:buffer.Bytes(),nil"] := rfl
 
 theorem c03_shape_tcp_TCPConn_Send :
     Shapes.network_tcp_TCPConn_Send =
-   ["sendMutex.Lock", "defer:sendMutex.Unlock", "Marshal", "c.sendRaw"] := rfl
+   ["sendMutex.Lock", "defer:sendMutex.Unlock", "Marshal", "assign:b,err:=Marshal(msg)",
+     "if:(err!=nil)", "return:0,xerrors.Errorf(\"\",err.Error())", "c.sendRaw",
+     "assign:len,err:=c.sendRaw(b)", "if:(err!=nil)", "return:len,xerrors.Errorf(\"\",err)",
+     "return:len,nil"] := rfl
 
 theorem c03_shape_tcp_TCPConn_sendRaw :
     Shapes.network_tcp_TCPConn_sendRaw =
    ["timeoutLock.RLock", "time.Now", "Now().Add", "conn.SetWriteDeadline", "timeoutLock.RUnlock",
-     "Size", "binary.Write", "c.Close", "conn.Write", "c.Close", "c.updateTx", "Size",
-     "c.updateTx"] := rfl
+     "Size", "assign:packetSize:=Size(len(b))", "binary.Write",
+     "assign:err:=binary.Write(c.conn,globalOrder,packetSize)", "if:(err!=nil)", "c.Close",
+     "return:0,xerrors.Errorf(\"\",err)", "for:(sent<packetSize){", "conn.Write",
+     "assign:n,err:=c.conn.Write(b[sent:])", "if:(err!=nil)", "c.Close",
+     "assign:sentLen:=(4+uint64(sent))", "c.updateTx",
+     "return:sentLen,xerrors.Errorf(\"\",handleError(err))", "Size", "assign:sent+=Size(n)", "}",
+     "assign:sentLen:=(4+uint64(sent))", "c.updateTx", "return:sentLen,nil"] := rfl
+
+theorem c03_shape_tcp_handleError :
+    Shapes.network_tcp_handleError =
+   ["if:(strings.Contains(err.Error(),\"\")||strings.Contains(err.Error(),\"\"))",
+     "return:ErrClosed", "else", "if:strings.Contains(err.Error(),\"\")", "return:ErrCanceled",
+     "else", "if:((err==io.EOF)||strings.Contains(err.Error(),\"\"))", "return:ErrEOF",
+     "assign:netErr,ok:=err.(net.Error)", "if:!ok", "return:ErrUnknown", "if:netErr.Timeout()",
+     "return:ErrTimeout", "if:strings.Contains(err.Error(),\"\")", "else", "return:ErrUnknown"] := rfl
 
 theorem c03_shape_encoding_Marshal :
     Shapes.network_encoding_Marshal =
-   ["MessageType", "binary.Write", "protobuf.Encode", "b.Write", "b.Bytes"] := rfl
+   ["MessageType", "assign:msgType=MessageType(msg)", "if:(msgType==ErrorType)",
+     "return:nil,xerrors.Errorf(\"\",reflect.TypeOf(msg))", "assign:b:=new(bytes.Buffer)",
+     "binary.Write", "assign:err:=binary.Write(b,globalOrder,msgType)", "if:(err!=nil)",
+     "return:nil,xerrors.Errorf(\"\",err)", "protobuf.Encode",
+     "assign:buf,err=protobuf.Encode(msg)", "if:(err!=nil)", "if:(log.DebugVisible()>0)",
+     "return:nil,xerrors.Errorf(\"\",err)", "b.Write", "assign:_,err=b.Write(buf)",
+     "if:(err!=nil)", "return:nil,xerrors.Errorf(\"\",err)", "return:b.Bytes(),nil"] := rfl
 
 theorem c03_shape_encoding_Unmarshal :
     Shapes.network_encoding_Unmarshal =
-   ["bytes.NewBuffer", "binary.Read", "if:(err!=nil)",
-     "return:ErrorType,nil,xerrors.Errorf(\"\",err)", "registry.get", "if:!ok",
-     "return:ErrorType,nil,xerrors.Errorf(\"\",tID.String())", "ptrVal.Interface",
-     "DefaultConstructors", "b.Bytes", "protobuf.DecodeWithConstructors", "if:(err!=nil)",
+   ["bytes.NewBuffer", "assign:b:=bytes.NewBuffer(buf)", "binary.Read",
+     "assign:err:=binary.Read(b,globalOrder,&tID)", "if:(err!=nil)",
+     "return:ErrorType,nil,xerrors.Errorf(\"\",err)", "registry.get",
+     "assign:typ,ok:=registry.get(tID)", "if:!ok",
+     "return:ErrorType,nil,xerrors.Errorf(\"\",tID.String())", "assign:ptrVal:=reflect.New(typ)",
+     "ptrVal.Interface", "assign:ptr:=ptrVal.Interface()", "DefaultConstructors",
+     "assign:constructors:=DefaultConstructors(suite)", "b.Bytes",
+     "protobuf.DecodeWithConstructors",
+     "assign:err:=protobuf.DecodeWithConstructors(b.Bytes(),ptr,constructors)", "if:(err!=nil)",
      "return:ErrorType,nil,xerrors.Errorf(\"\",err)", "return:tID,ptrVal.Interface(),nil"] := rfl
 
-theorem c03_shape_router_Router_handleConn :
-    Shapes.network_router_Router_handleConn =
-   ["defer{", "c.Close", "c.Rx", "c.Tx", "traffic.updateRx", "traffic.updateTx", "wg.Done",
-     "r.removeConnection", "verifC10Point", "}", "verifC10Point", "c.Remote", "c.Receive",
-     "verifC10Point", "r.Lock", "r.Unlock", "recv:paused", "r.Lock", "r.Unlock", "r.Closed",
-     "r.triggerConnectionErrorHandlers", "r.triggerConnectionErrorHandlers",
-     "r.triggerConnectionErrorHandlers", "verifC10Point", "msgTraffic.updateRx", "r.Dispatch"] := rfl
+theorem c03_shape_encoding_RegisterMessage :
+    Shapes.network_encoding_RegisterMessage =
+   ["computeMessageType", "assign:msgType:=computeMessageType(msg)",
+     "assign:val:=reflect.ValueOf(msg)", "if:(val.Kind()==reflect.Ptr)", "val.Elem",
+     "assign:val=val.Elem()", "val.Type", "assign:t:=val.Type()", "registry.put",
+     "return:msgType"] := rfl
+
+theorem c03_shape_encoding_computeMessageType :
+    Shapes.network_encoding_computeMessageType =
+   ["assign:val:=reflect.ValueOf(msg)", "if:(val.Kind()==reflect.Ptr)", "val.Elem",
+     "assign:val=val.Elem()", "val.Type", "Type().String",
+     "assign:url:=(NamespaceBodyType+val.Type().String())", "uuid.NewSHA1",
+     "assign:u:=uuid.NewSHA1(uuid.NameSpaceURL,conv(url))", "return:MessageTypeID(u)"] := rfl
+
+theorem c03_shape_encoding_MessageType :
+    Shapes.network_encoding_MessageType =
+   ["computeMessageType", "assign:msgType:=computeMessageType(msg)", "registry.get",
+     "assign:_,ok:=registry.get(msgType)", "if:!ok", "return:ErrorType", "return:msgType"] := rfl
+
+theorem c03_shape_encoding_typeRegistry_get :
+    Shapes.network_encoding_typeRegistry_get =
+   ["lock.Lock", "defer:lock.Unlock", "assign:t,ok:=tr.types[mid]", "return:t,ok"] := rfl
+
+theorem c03_shape_encoding_typeRegistry_put :
+    Shapes.network_encoding_typeRegistry_put =
+   ["lock.Lock", "defer:lock.Unlock", "assign:tr.types[mid]=typ"] := rfl
+
+theorem c03_shape_encoding_DefaultConstructors :
+    Shapes.network_encoding_DefaultConstructors =
+   ["assign:constructors:=make(protobuf.Constructors)", "if:(suite!=nil)",
+     "return:suite.Point()", "assign:constructors[reflect.TypeOf().Elem()]=func",
+     "return:suite.Scalar()", "assign:constructors[reflect.TypeOf().Elem()]=func",
+     "return:constructors"] := rfl
+
+theorem c03_shape_encoding_init :
+    Shapes.network_encoding_init =
+   ["bn256.NewSuiteG1", "NewSuiteG1().Point", "protobuf.RegisterInterface", "bn256.NewSuiteG1",
+     "NewSuiteG1().Scalar", "protobuf.RegisterInterface", "bn256.NewSuiteG2",
+     "NewSuiteG2().Point", "protobuf.RegisterInterface", "bn256.NewSuiteG2",
+     "NewSuiteG2().Scalar", "protobuf.RegisterInterface", "bn256.NewSuiteGT",
+     "NewSuiteGT().Point", "protobuf.RegisterInterface", "bn256.NewSuiteGT",
+     "NewSuiteGT().Scalar", "protobuf.RegisterInterface", "suites.MustFind", "ed25519.Point",
+     "protobuf.RegisterInterface", "ed25519.Scalar", "protobuf.RegisterInterface"] := rfl
+
+theorem c03_shape___router_Router_handleConn :
+    Shapes.network___router_Router_handleConn =
+   ["defer{", "c.Close", "assign:err:=c.Close()", "if:(err!=nil)", "c.Rx", "c.Tx",
+     "assign:rx,tx:=c.Rx(),c.Tx()", "traffic.updateRx", "traffic.updateTx", "wg.Done",
+     "r.removeConnection", "verifC10Point", "}", "verifC10Point", "c.Remote",
+     "assign:address:=c.Remote()", "for:{", "c.Receive", "assign:packet,err:=c.Receive()",
+     "verifC10Point", "r.Lock", "assign:paused:=r.paused", "r.Unlock", "if:(paused!=nil)",
+     "recv:paused", "r.Lock", "assign:r.paused=nil", "r.Unlock", "return:", "if:r.Closed()",
+     "return:", "if:(err!=nil)", "if:xerrors.Is(err,ErrTimeout)",
+     "r.triggerConnectionErrorHandlers", "return:",
+     "if:(xerrors.Is(err,ErrClosed)||xerrors.Is(err,ErrEOF))",
+     "r.triggerConnectionErrorHandlers", "return:", "if:xerrors.Is(err,ErrUnknown)",
+     "r.triggerConnectionErrorHandlers", "return:", "continue",
+     "assign:packet.ServerIdentity=remote", "verifC10Point", "msgTraffic.updateRx", "r.Dispatch",
+     "assign:err:=r.Dispatch(packet)", "if:(err!=nil)", "}"] := rfl
 
 theorem c03_shape_local_LocalConn_Send :
     Shapes.network_local_LocalConn_Send =
-   ["Marshal", "lc.updateTx", "manager.send"] := rfl
+   ["Marshal", "assign:buff,err:=Marshal(msg)", "if:(err!=nil)",
+     "return:0,xerrors.Errorf(\"\",err)", "assign:sentLen:=uint64(len(buff))", "lc.updateTx",
+     "manager.send", "assign:err=lc.manager.send(lc.remote,buff)", "if:(err!=nil)",
+     "return:sentLen,xerrors.Errorf(\"\",err)", "return:sentLen,nil"] := rfl
 
 theorem c03_shape_local_LocalConn_Receive :
     Shapes.network_local_LocalConn_Receive =
-   ["recv:outgoingQueue", "lc.updateRx", "Unmarshal", "Size"] := rfl
+   ["recv:outgoingQueue", "assign:buff,opened:=<-lc.outgoingQueue", "if:!opened",
+     "return:nil,xerrors.Errorf(\"\",ErrClosed)", "lc.updateRx", "Unmarshal",
+     "assign:id,body,err:=Unmarshal(buff,lc.suite)", "if:(err!=nil)",
+     "return:nil,xerrors.Errorf(\"\",err)",
+     "return:&Envelope{MsgType:id,Msg:body,Size:Size(len(buff))},nil"] := rfl
 
 theorem c03_shape_local_LocalManager_send :
     Shapes.network_local_LocalManager_send =
